@@ -103,13 +103,11 @@ FINDING_TEXT = {
     "C01-7": "a definition that is a reference cycle of aliases becomes `struct A(Box<A>)`: `From<A> for Box<A>` (E0119), Deref recursion (E0055)",
     "C01-8": "an untagged enum with an array variant and a unique-items array variant of the same items gets `From<Vec<T>>` twice (E0119)",
     "C01-9": "a newtype over a replacement / conversion type `String` declared with FromStr gets `TryFrom<String>` next to `From<String>` (E0119)",
-    "C01-10": "`enum: [null, ..]` emits the nullable wrapper and the inner enum under one name (E0428, E0072)",
     "C01-11": "a patch `rename` is used unchecked: a taken name, a module name, a keyword or a non-identifier (E0428 / unparsable / to_stream panic)",
-    "C01-12": "a type name registered by two calls (C16-1), or a titled nested sub-schema named like a definition / the root of its call (C16-3): two items (E0428)",
+    "C01-12": "a type name registered by two different calls of the history (C16-1): two items of that name (E0428)",
     "C01-13": "field identifiers that differ as scalar sequences but are NFC-equal (E0124) [= C08-F4]",
     "C01-14": "containment cycle through a native type parameter (x-rust-type Option<Self>) is not cut (E0072) [= C07-2]",
     "C01-18": "a supported document is rejected (InvalidValue): two oneOf branches define one property with different inline schemas, both named <Def><Prop>; the second silently reuses the first type and its valid default fails validation",
-    "C01-17": "an inline sub-schema under a property named `_` / `` / `-` is named like its parent: two items of that name (E0428)",
 }
 
 
@@ -1001,25 +999,12 @@ def classify(case, g, kind, codes, msgs):
             nullenum = any(ty(k) == n for _, _, ne in per_step for k in ne)
             if max(len(t) for t in tops) > 1:
                 return None                                   # two top-level names of ONE call: c22ef06 must reject it
-            if nullenum and sum(len(t) for t in tops) == 1 and not any(nest):
-                verdicts.add("C01-10")                        # `enum: [null, ..]` definition: wrapper and inner enum
-            elif len([t for t in tops if t]) >= 2:
+            if len([t for t in tops if t]) >= 2:
                 verdicts.add("C01-12")                        # the name registered by two CALLS (C16-1)
-            elif any(t and ns for t, ns in zip(tops, nest)):
-                verdicts.add("C01-12")                        # titled nested sub-schema vs a top-level name of its call (C16-3)
-            elif any(t and empty_suffix_inline(stp, t[0]) for t, stp in zip(tops, case["steps"])):
-                verdicts.add("C01-17")                        # inline type under a property contributing no name suffix
             else:
+                # every same-call collision is rejected at add: definition keys / root title (c22ef06), derived and
+                # titled inline names, `enum: [null, ..]` wrapper vs inner (40183ea; were C01-10, C01-12 b, C01-17)
                 return None
-        if "C01-10" in verdicts:
-            for i, e in ents.items():
-                if e["kind"] == "newtype" and e["name"] in d:
-                    inner = ents.get(e["type_id"], {})
-                    if inner.get("kind") == "option" and ents.get(inner["id"], {}).get("name") == e["name"]:
-                        return "C01-10" if verdicts == {"C01-10"} else None
-            return None
-        if verdicts == {"C01-17"}:
-            return "C01-17"
         return "C01-12" if verdicts == {"C01-12"} else None
     fns = [it["name"] for it in g["render"]["scan"]["items"] if it["mod"] == "defaults" and it["kind"] == "fn"]
     if dups(fns) and codes <= {"E0428"}:
@@ -1227,7 +1212,7 @@ def coq_wf(ctx, gens, idx, tag):
 
 # conjunct tag of RustStatic.wf_report -> finding classes it explains
 TAG_FINDINGS = {
-    "items": {"C01-10", "C01-11", "C01-12", "C01-17"},
+    "items": {"C01-11", "C01-12"},
     "modnames": {"C01-11"},
     "defaultfns": {"C01-4"},
     "fields": set(),
@@ -1238,7 +1223,7 @@ TAG_FINDINGS = {
     "default_tuple1": set(),       # C01-16 fixed by 15ce314: holds for every space now
     "deref_cycle": {"C01-7"},
     "tryfrom_string": {"C01-9"},
-    "acyclic": {"C01-14", "C01-10"},
+    "acyclic": {"C01-14"},
     "derive_bounds": {"C01-5"},
     "serde_rules": set(),
     "serde_default": set(),
